@@ -1256,6 +1256,155 @@ def tr_num_outcomes(cls, coq_name):
     return ("Definition %s (sched : nat -> list nat) (povm_len : nat -> nat) (num_outcomes schedule_index : nat) : nat := %s.\n" % (coq_name, res)).replace("\\n", "\n")
 
 
+# ------------------------------------------------------------------ StandardQTomography.calc_fisher_matrix: row slice of schedule j
+def tr_tomo_fisher(cls):
+    f = find_def(cls, "calc_fisher_matrix")
+    if argnames(f) != ["self", "j", "var"]:
+        fail(f, "unexpected parameters")
+    st = body_wo_doc(f)
+    if len(st) != 9:
+        fail(f, "expected 9 statements, found %d" % len(st))
+    s0 = st[0]
+    ok = (isinstance(s0, ast.If) and not s0.orelse and len(s0.body) == 1 and isinstance(s0.test, ast.Call) and is_name(s0.test.func, "isinstance")
+          and len(s0.test.args) == 2 and is_name(s0.test.args[0], "var") and is_name(s0.test.args[1], "QOperation"))
+    if ok:
+        n_, v_ = assign1(s0.body[0])
+        ok = (n_ == "var" and isinstance(v_, ast.Call) and isinstance(v_.func, ast.Attribute) and v_.func.attr == "to_var" and is_name(v_.func.value, "var") and not v_.args)
+    if not ok:
+        fail(s0, "expected `if isinstance(var, QOperation): var = var.to_var()`")
+    mA, v = assign1(st[1])
+    if not (isinstance(v, ast.Call) and is_self_attr(v.func, "calc_matA") and not v.args):
+        fail(st[1], "expected `<A> = self.calc_matA()`")
+    vB, v = assign1(st[2])
+    if not (isinstance(v, ast.Call) and is_self_attr(v.func, "calc_vecB") and not v.args):
+        fail(st[2], "expected `<b> = self.calc_vecB()`")
+    # start = sum(self.num_outcomes(i) for i in range(j))
+    sn, v = assign1(st[3])
+    ok = (isinstance(v, ast.Call) and is_name(v.func, "sum") and len(v.args) == 1 and isinstance(v.args[0], (ast.GeneratorExp, ast.ListComp))
+          and len(v.args[0].generators) == 1 and not v.args[0].generators[0].ifs and isinstance(v.args[0].generators[0].target, ast.Name)
+          and isinstance(v.args[0].generators[0].iter, ast.Call) and is_name(v.args[0].generators[0].iter.func, "range")
+          and len(v.args[0].generators[0].iter.args) == 1)
+    if not ok:
+        fail(st[3], "expected `<start> = sum(self.num_outcomes(i) for i in range(<n>))`")
+    iv = v.args[0].generators[0].target.id
+
+    def num_out(e, names):
+        if isinstance(e, ast.Call) and is_self_attr(e.func, "num_outcomes") and len(e.args) == 1 and not e.keywords:
+            return "(num_outcomes %s)" % nexp(e.args[0], names)
+        fail(e, "expected self.num_outcomes(<index>)")
+
+    def nexp(e, names):
+        if isinstance(e, ast.Name) and e.id in names:
+            return names[e.id]
+        if isinstance(e, ast.Constant) and type(e.value) is int and 0 <= e.value <= 100:
+            return "%d" % e.value
+        if isinstance(e, ast.BinOp) and isinstance(e.op, ast.Add):
+            return "(%s + %s)" % (nexp(e.left, names), nexp(e.right, names))
+        if isinstance(e, ast.BinOp) and isinstance(e.op, ast.Sub):
+            return "(%s - %s)" % (nexp(e.left, names), nexp(e.right, names))
+        if isinstance(e, ast.Call):
+            return num_out(e, names)
+        fail(e, "unsupported index expression")
+    rng_n = nexp(v.args[0].generators[0].iter.args[0], {"j": "j"})
+    elt = num_out(v.args[0].elt, {iv: iv, "j": "j"})
+    names = {"j": "j", sn: sn}
+    so, v = assign1(st[4])
+    stop_e = nexp(v, names)
+    names[so] = so
+    # prob_dist = matA[a:b] @ var + vecB[c:d] ; grad_prob_dist = matA[e:f]
+    pd, v = assign1(st[5])
+    ok = (isinstance(v, ast.BinOp) and isinstance(v.op, ast.Add) and isinstance(v.left, ast.BinOp) and isinstance(v.left.op, ast.MatMult)
+          and isinstance(v.left.left, ast.Subscript) and is_name(v.left.left.value, mA) and is_name(v.left.right, "var")
+          and isinstance(v.right, ast.Subscript) and is_name(v.right.value, vB))
+    if not ok:
+        fail(st[5], "expected `<p> = matA[a:b] @ var + vecB[a:b]`")
+    gd, v2 = assign1(st[6])
+    if not (isinstance(v2, ast.Subscript) and is_name(v2.value, mA)):
+        fail(st[6], "expected `<g> = matA[a:b]`")
+
+    def sl(x):
+        if not (isinstance(x, ast.Slice) and x.step is None and x.lower is not None and x.upper is not None):
+            fail(x, "expected a slice lo:hi")
+        return nexp(x.lower, names), nexp(x.upper, names)
+    a0, a1 = sl(v.left.left.slice); b0, b1 = sl(v.right.slice); g0, g1 = sl(v2.slice)
+    fm, v = assign1(st[7])
+    ok = (isinstance(v, ast.Call) and isinstance(v.func, ast.Attribute) and v.func.attr == "calc_fisher_matrix" and len(v.args) == 2 and not v.keywords
+          and is_name(v.args[0], pd) and is_name(v.args[1], gd))
+    if not ok:
+        fail(st[7], "expected `<F> = matrix_util.calc_fisher_matrix(<p>, <g>)` (default eps)")
+    if not (isinstance(st[8], ast.Return) and is_name(st[8].value, fm)):
+        fail(st[8], "expected `return <F>`")
+    return ("(* raw = matA @ var + vecB stacked over all schedules; the three slices are those of matA (for the probabilities), of vecB and of\n"
+            "   matA (for the gradients); eps8 is calc_fisher_matrix's default eps *)\n"
+            "Definition gen_tomo_fisher_start (num_outcomes : nat -> nat) (j : nat) : nat := fold_right Nat.add 0 (map (fun %s => %s) (seq 0 %s)).\n"
+            "Definition gen_tomo_fisher_stop (num_outcomes : nat -> nat) (j : nat) : nat := let %s := gen_tomo_fisher_start num_outcomes j in %s.\n"
+            "Definition gen_tomo_fisher (eps8 : F) (Av b : vec) (A : mat) (num_outcomes : nat -> nat) (j : nat) : mres mat :=\n"
+            "  let %s := gen_tomo_fisher_start num_outcomes j in let %s := gen_tomo_fisher_stop num_outcomes j in\n"
+            "  gen_mu_fisher eps8 (%s - %s) (%s - %s) (fun x => cadd F (Av (%s + x)) (b (%s + x))) (fun x a => A (%s + x) a).\n"
+            % (iv, elt, rng_n, sn, stop_e, sn, so, a1, a0, g1, g0, a0, b0, g0))
+
+
+# ------------------------------------------------------------------ StandardQTomography.calc_prob_dists: which vector, the split points
+def tr_prob_dists(cls):
+    f = find_def(cls, "calc_prob_dists")
+    if argnames(f) != ["self", "qope"]:
+        fail(f, "unexpected parameters")
+    st = body_wo_doc(f)
+    if len(st) != 5:
+        fail(f, "expected 5 statements, found %d" % len(st))
+    iff = st[0]
+    if not (isinstance(iff, ast.If) and is_self_attr(iff.test, "_on_para_eq_constraint") and len(iff.body) == 1 and len(iff.orelse) == 1):
+        fail(iff, "expected `if self._on_para_eq_constraint: <tmp> = ... else: <tmp> = ...`")
+
+    def affine_of(s_):
+        n_, v_ = assign1(s_)
+        ok = (isinstance(v_, ast.BinOp) and isinstance(v_.op, ast.Add) and isinstance(v_.left, ast.BinOp) and isinstance(v_.left.op, ast.MatMult)
+              and isinstance(v_.left.left, ast.Call) and is_self_attr(v_.left.left.func, "calc_matA") and not v_.left.left.args
+              and isinstance(v_.left.right, ast.Call) and isinstance(v_.left.right.func, ast.Attribute) and is_name(v_.left.right.func.value, "qope")
+              and not v_.left.right.args and v_.left.right.func.attr in ("to_var", "to_stacked_vector")
+              and isinstance(v_.right, ast.Call) and is_self_attr(v_.right.func, "calc_vecB") and not v_.right.args)
+        if not ok:
+            fail(s_, "expected `<tmp> = self.calc_matA() @ qope.<to_var|to_stacked_vector>() + self.calc_vecB()`")
+        return n_, v_.left.right.func.attr == "to_var"
+    t1, var1 = affine_of(iff.body[0]); t2, var2 = affine_of(iff.orelse[0])
+    if t1 != t2:
+        fail(iff, "both branches must assign the same name")
+    sz, v = assign1(st[1])
+    ok = (isinstance(v, ast.ListComp) and len(v.generators) == 1 and not v.generators[0].ifs and isinstance(v.generators[0].target, ast.Name)
+          and isinstance(v.generators[0].iter, ast.Call) and is_name(v.generators[0].iter.func, "range") and len(v.generators[0].iter.args) == 1
+          and is_self_attr(v.generators[0].iter.args[0], "num_schedules") and isinstance(v.elt, ast.Call) and is_self_attr(v.elt.func, "num_outcomes")
+          and len(v.elt.args) == 1 and is_name(v.elt.args[0], v.generators[0].target.id))
+    if not ok:
+        fail(st[1], "expected `<sizes> = [self.num_outcomes(j) for j in range(self.num_schedules)]`")
+    pdn, v = assign1(st[2])
+    ok = (isinstance(v, ast.ListComp) and len(v.generators) == 1 and not v.generators[0].ifs and isinstance(v.generators[0].target, ast.Name)
+          and isinstance(v.elt, ast.Call) and isinstance(v.elt.func, ast.Attribute) and v.elt.func.attr == "truncate_and_normalize"
+          and len(v.elt.args) == 1 and not v.elt.keywords and is_name(v.elt.args[0], v.generators[0].target.id))
+    if ok:
+        it = v.generators[0].iter
+        ok = (np_call(it, "split", 2) and not it.keywords and is_name(it.args[0], t1) and isinstance(it.args[1], ast.Subscript)
+              and np_call(it.args[1].value, "cumsum", 1) and is_name(it.args[1].value.args[0], sz) and isinstance(it.args[1].slice, ast.Slice)
+              and it.args[1].slice.lower is None and it.args[1].slice.step is None and isinstance(it.args[1].slice.upper, ast.UnaryOp)
+              and isinstance(it.args[1].slice.upper.op, ast.USub) and is_const(it.args[1].slice.upper.operand, 1))
+    if not ok:
+        fail(st[2], "expected `[matrix_util.truncate_and_normalize(p) for p in np.split(<tmp>, np.cumsum(<sizes>)[:-1])]`")
+    pk = st[3]
+    ok = (isinstance(pk, ast.If) and not pk.orelse and len(pk.body) == 1 and isinstance(pk.body[0], ast.Assign) and is_name(pk.body[0].targets[0], pdn)
+          and np_call(pk.body[0].value, "array", 1) and is_name(pk.body[0].value.args[0], pdn))
+    if not ok:
+        fail(pk, "expected the packaging `if len(set(sizes)) == 1: <pd> = np.array(<pd>)` (presentation only)")
+    if not (isinstance(st[4], ast.Return) and is_name(st[4].value, pdn)):
+        fail(st[4], "expected `return <pd>`")
+    b = lambda x: "true" if x else "false"
+    return ("(* true = the forward model is applied to qope.to_var(), false = to qope.to_stacked_vector() *)\n"
+            "Definition gen_prob_dists_uses_var (on_para_eq_constraint : bool) : bool := if on_para_eq_constraint then %s else %s.\n"
+            "(* raw = matA @ <vector> + vecB of length total; eps = the default eps of truncate_and_normalize *)\n"
+            "Definition gen_prob_dists (eps : F) (raw : vec) (num_outcomes : nat -> nat) (num_schedules total : nat) : list (nat * vec) :=\n"
+            "  let sizes := map (fun j => num_outcomes j) (seq 0 num_schedules) in\n"
+            "  map (fun ol : nat * nat => (snd ol, trunc_norm_row F eps (snd ol) (fun x => raw (fst ol + x))))\n"
+            "      (np_split_from 0 (removelast (np_cumsum sizes)) total).\n" % (b(var1), b(var2)))
+
+
 def main(repo, out):
     def parse(rel):
         return ast.parse(open(os.path.join(repo, rel), encoding="utf-8").read())
@@ -1284,6 +1433,8 @@ def main(repo, out):
     parts.append(tr_cov_mats(mu, da))
     parts.append(tr_sample_stats(mu, da))
     parts.append(tr_mu_fisher(find_def(mu, "calc_fisher_matrix")))
+    parts.append(tr_tomo_fisher(find_class(tq, "StandardQTomography")))
+    parts.append(tr_prob_dists(find_class(tq, "StandardQTomography")))
     parts.append(tr_decisions(find_class(tq, "StandardQTomography"), find_class(parse("quara/protocol/qtomography/standard/standard_qst.py"), "StandardQst"),
                               find_class(tp, "StandardPovmt"), find_class(parse("quara/protocol/qtomography/standard/standard_qpt.py"), "StandardQpt"),
                               find_class(tm, "StandardQmpt")))
